@@ -6,4 +6,12 @@ package routing
 
 // VerifCloseAgents closes the AgentManager (Core.Close does not), so that a closed Core is not
 // kept alive by the manager's handler goroutine when the harness creates hundreds of Cores.
-func (c *Core) VerifCloseAgents() { _ = c.agentManager.Close() }
+// Calling it again is a no-op.
+func (c *Core) VerifCloseAgents() {
+	select {
+	case <-c.agentManager.closeSyn:
+		return // already closed
+	default:
+	}
+	_ = c.agentManager.Close()
+}
